@@ -110,9 +110,10 @@ def expected(case):
 
 def gen_base(rng):
     workers = []
+    long_worker = rng.random() < 0.3      # a worker still busy with several calls while the main thread finalises
     for _ in range(rng.choice([1, 1, 2])):
         calls = []
-        for _ in range(rng.choice([1, 1, 2])):
+        for _ in range(rng.choice([5, 6, 8]) if long_worker else rng.choice([1, 1, 2])):
             site = rng.choice(['in', 'in', 'out'])
             calls.append({'site': site, 'arg': rng.randint(0, 3), 'raises': rng.random() < 0.25,
                           'prepare_fails': site == 'in' and rng.random() < 0.15,
